@@ -432,3 +432,39 @@ pub fn jl_truthy(v: &Value) -> bool {
         Value::Object(_) => true,
     }
 }
+
+// ---------------------------------------------------------------------------------
+// Bounded model of serde_json's `Value::clone` (a dependency, not the code under test), used where elements of
+// unknown variant are read back from the heap: scalars and strings are copied, arrays one level deep; anything
+// deeper or any object reaching it fails an assertion (a CHECKED domain restriction, like the R11 cuts).
+// ---------------------------------------------------------------------------------
+pub fn scalar_clone_model(v: &Value) -> Value {
+    match v {
+        Value::Null => Value::Null,
+        Value::Bool(b) => Value::Bool(*b),
+        Value::Number(n) => Value::Number(n.clone()),
+        Value::String(s) => Value::String(s.clone()),
+        _ => {
+            assert!(false, "clone model: value deeper than the harness domain");
+            Value::Null
+        }
+    }
+}
+pub fn value_clone_model(v: &Value) -> Value {
+    match v {
+        Value::Array(a) => {
+            let mut out = Vec::with_capacity(a.len());
+            let mut i = 0;
+            while i < a.len() {
+                out.push(scalar_clone_model(&a[i]));
+                i += 1;
+            }
+            Value::Array(out)
+        }
+        Value::Object(_) => {
+            assert!(false, "clone model: objects are outside the harness domain");
+            Value::Null
+        }
+        _ => scalar_clone_model(v),
+    }
+}
